@@ -309,6 +309,21 @@ def rec(t, data=b""):
     return struct.pack("<HH", t, len(data)) + data
 
 
+# CodePage records (0x0042, [MS-XLS] 2.4.52) as real BIFF8 writers put them among the globals: Excel
+# 1200, JExcelApi 1252 (the repository's tests/sheet_name_parsing.xls), localised writers, UTF-8,
+# Mac Roman, values the `codepage` crate does not know (437, 0, 54321, 65535).  BIFF8 text is
+# Unicode whatever the record says (audit-2 finding XLS-1).
+CODEPAGES = [1200, 1200, 1252, 1252, 1251, 1250, 932, 936, 949, 950, 874, 65001, 10000, 1201, 437, 0, 54321, 65535]
+
+
+def codepage_record(rng):
+    """(type, body): two bytes as the format says; sometimes more (the reader takes the first two)"""
+    body = struct.pack("<H", rng.choice(CODEPAGES))
+    if rng.random() < 0.08:
+        body += bytes(rng.randrange(256) for _ in range(rng.choice([1, 2, 6])))
+    return (0x0042, body)
+
+
 def xls_style_records():
     """(type, body) records: General XF and a date XF (ifmt 14)"""
     out = []
